@@ -750,7 +750,14 @@ def _field_of(pl, adt, names):
 def _failed_tests(F, body, du, block):
     """Names of the quoting tests known to have FAILED on every path to block, and the locals they looked at."""
     out = {}
+    origin_variants = set()
     for org, lab, e in Q.implied_conditions(F, body, du, block):
+        if org['k'] == 'discr' and lab[0] == 'variant' and _field_of(org['pl'], ATTRCHAR, ('origin',)):
+            origin_variants.add(lab[1])      # `match c.origin { HardExpansion => .., Literal | SoftExpansion => <here> }`
+    if origin_variants and 'HardExpansion' not in origin_variants:
+        out['hard-expansion'] = None
+    for org, lab, e in Q.implied_conditions(F, body, du, block):
+        org, lab = Q.peel_not(du, org, lab)
         if lab != ('bool', False):
             continue
         if org['k'] == 'place':
@@ -852,8 +859,21 @@ def r4(cx):
             continue
         du = None
         body = body0
-        if Q.find_aggregates(body0, PCHAR, 'Normal'):
-            body = F.inlined(body0)      # `fn is_literal(c) -> bool` and the like are read at the call site
+        if Q.find_aggregates(body0, PCHAR, 'Normal') or body0.root == TO_PATTERN_CHARS:
+            # `fn is_literal(c) -> bool`, `fn pattern_char(c) -> Option<PatternChar>` are read at the call site (two levels)
+            body = F.inlined(F.inlined(body0))
+        if body0.fn not in PRODUCERS and body0.root != TO_PATTERN_CHARS and Q.find_aggregates(body0, PCHAR, 'Normal'):
+            # a private helper of the attr_fnmatch module that only the reviewed producer calls is analysed inlined there
+            sig = F.fns.get(body0.fn) or {}
+            users = F.callers_of(lambda names, t, _fn=body0.fn: _fn in names)
+            if sig.get('vis') != 'pub' and users and all(ub.root == TO_PATTERN_CHARS for ub, ublk, ut in users):
+                cx.site('%s: private helper of to_pattern_chars, analysed at its call site' % body0.fn)
+                continue
+            as_value = [lb for lb in F.logical(TO_PATTERN_CHARS) if any(
+                isinstance(o, dict) and o.get('fn') == body0.fn for blk_, t_ in lb.calls() for o in t_['a'])]
+            if sig.get('vis') != 'pub' and not users and as_value and body0.fn.startswith(TO_PATTERN_CHARS.rsplit('::', 1)[0] + '::'):
+                # `chars.iter().filter_map(pattern_char)`: the helper IS the producer
+                PRODUCERS.setdefault(body0.fn, set(PRODUCERS[TO_PATTERN_CHARS + '::{closure#0}']))
         for b, j, s in Q.find_aggregates(body, PCHAR, 'Normal'):
             n_norm += 1
             du = du or Q.DefUse(body)
@@ -892,7 +912,7 @@ def r4(cx):
                              'character becomes PatternChar::Normal regardless of quoting', loc=body.loc(t))
     cx.floor(n_norm, 2, 'PatternChar::Normal construction sites outside yash-fnmatch')
     # (c) apply_escapes: the two flags are set exactly for an unquoted, non-quoting backslash and its successor
-    ab = F.inlined(F.body(APPLY_ESCAPES))
+    ab = F.inlined(F.inlined(F.body(APPLY_ESCAPES)))
     cx.fn(APPLY_ESCAPES)
     du = Q.DefUse(ab)
     writes = {}
@@ -948,7 +968,8 @@ def r4(cx):
         conds = Q.implied_conditions(F, ab, du, b)
         have = set()
         for org, lab, e in conds:
-            if org['k'] == 'binop' and org['rv']['op'] == 'Eq' and lab == ('bool', True):
+            org, lab = Q.peel_not(du, org, lab)
+            if org['k'] == 'binop' and ((org['rv']['op'] == 'Eq' and lab == ('bool', True)) or (org['rv']['op'] == 'Ne' and lab == ('bool', False))):
                 cs = [_char_const(x) for x in (org['rv']['a'], org['rv']['b'])]
                 vals = [du.origin(x) for x in (org['rv']['a'], org['rv']['b']) if 'c' not in x]
                 if '\\' in cs and vals and vals[0]['k'] == 'place' and _field_of(vals[0]['pl'], ATTRCHAR, ('value',)):
